@@ -143,9 +143,10 @@ func (e *Emitter) Script(o *Obligation) string {
 	var b strings.Builder
 	b.WriteString("(set-logic ALL)\n")
 	b.WriteString(basePrelude)
-	sd := e.ss.Decls()
+	sd, sortAxioms := splitSortDecls(e.ss.Decls())
 	b.WriteString(e.ss.StrDecls())
 	b.WriteString(sd)
+	headLen := b.Len()
 	// Relevance closure (fixpoint): the symbols of the VC make spec functions relevant; a relevant spec function makes the
 	// symbols of its declaration/definition relevant; a lemma is relevant when it speaks about a relevant spec function,
 	// and then its symbols are relevant too. Axioms are always emitted.
@@ -225,12 +226,104 @@ func (e *Emitter) Script(o *Obligation) string {
 	for _, d := range keep {
 		b.WriteString(d + "\n")
 	}
+	// Quantified facts about sorts (map length, boxing into interfaces, reference links) accumulate over all functions of
+	// a run. One is kept only when every function symbol of its pattern occurs in this VC (or in a kept fact): without a
+	// ground term to match, E-matching can never instantiate it, and dropping a hypothesis is always sound. This keeps the
+	// VC of a function independent of which other functions were verified in the same run.
 	for _, p := range o.PC {
 		b.WriteString("(assert " + p + ")\n")
 	}
 	b.WriteString("(assert (not " + o.Goal + "))\n")
 	b.WriteString("(check-sat)\n")
-	return b.String()
+	full := b.String()
+	for _, sym := range symRe.FindAllString(full, -1) {
+		used[sym] = true
+	}
+	var kept strings.Builder
+	for changed := true; changed; {
+		changed = false
+		for i, a := range sortAxioms {
+			if a == "" {
+				continue
+			}
+			ok := false
+			for _, alt := range patternSymbols(a) {
+				all := true
+				for _, sym := range alt {
+					if !used[sym] {
+						all = false
+						break
+					}
+				}
+				if all {
+					ok = true
+					break
+				}
+			}
+			if ok {
+				kept.WriteString(a + "\n")
+				for sym := range symbolsOf(a) {
+					if !used[sym] {
+						used[sym] = true
+						changed = true
+					}
+				}
+				sortAxioms[i] = ""
+			}
+		}
+	}
+	// emitted right after the sort declarations (solver run times are sensitive to the order of assertions)
+	return full[:headLen] + kept.String() + full[headLen:]
+}
+
+// splitSortDecls separates the quantified assertions of the sort declarations from the rest (sorts, functions, ground facts).
+func splitSortDecls(sd string) (string, []string) {
+	var rest strings.Builder
+	var axioms []string
+	for _, l := range strings.Split(sd, "\n") {
+		if strings.HasPrefix(l, "(assert (forall") && strings.Contains(l, ":pattern") {
+			axioms = append(axioms, l)
+		} else {
+			rest.WriteString(l + "\n")
+		}
+	}
+	return rest.String(), axioms
+}
+
+// patternSymbols: per alternative :pattern annotation of a quantified assertion, its function symbols (bound variables
+// and the array builtins excluded).
+func patternSymbols(a string) [][]string {
+	bound := map[string]bool{"select": true, "store": true, "pattern": true}
+	if i := strings.Index(a, "(forall ("); i >= 0 {
+		depth, j := 0, i+len("(forall ")
+		for k := j; k < len(a); k++ {
+			if a[k] == '(' {
+				depth++
+			} else if a[k] == ')' {
+				depth--
+				if depth == 0 {
+					for _, bv := range strings.Split(a[j:k], ")") {
+						f := strings.Fields(strings.TrimLeft(bv, "( "))
+						if len(f) > 0 {
+							bound[f[0]] = true
+						}
+					}
+					break
+				}
+			}
+		}
+	}
+	var out [][]string
+	for _, part := range strings.Split(a, ":pattern")[1:] {
+		var alt []string
+		for _, sym := range symRe.FindAllString(part, -1) {
+			if !bound[sym] {
+				alt = append(alt, sym)
+			}
+		}
+		out = append(out, alt)
+	}
+	return out
 }
 
 type Solver struct {
@@ -300,7 +393,7 @@ func Solve(file string, timeout int, quickFirst bool) solveOut {
 		}
 		for _, s := range solvers {
 			if s.Name == "z3-5.1.0-ematch-noext" {
-				r := runSolver(context.Background(), s, file, min(4, timeout))
+				r := runSolver(context.Background(), s, file, min(8, timeout))
 				if r.answer == "unsat" {
 					return r
 				}
